@@ -16,6 +16,13 @@ impl RD {
             _ => format!("\"{}\"", s.replace('"', "\"\"")),
         }
     }
+    /// a table name of the harness: `schema.table` when it carries the schema separator
+    pub fn tid(&self, s: &str) -> String {
+        match s.split_once(crate::ddl::SCHEMA_SEP) {
+            Some((sc, t)) => format!("{}.{}", self.id(sc), self.id(t)),
+            None => self.id(s),
+        }
+    }
     pub fn str(&self, s: &str) -> String {
         match self.d {
             Dialect::Mysql => format!("'{}'", s.replace('\\', "\\\\").replace('\'', "''")),
@@ -246,7 +253,7 @@ impl RD {
             "CONSTRAINT {} FOREIGN KEY ({}) REFERENCES {} ({})",
             self.id(fk.name.as_deref().unwrap_or("")),
             fk.cols.iter().map(|c| self.id(c)).collect::<Vec<_>>().join(", "),
-            self.id(&fk.ref_table),
+            self.tid(&fk.ref_table),
             fk.ref_cols.iter().map(|c| self.id(c)).collect::<Vec<_>>().join(", ")
         );
         if let Some(a) = fk.on_delete {
@@ -312,7 +319,7 @@ impl RD {
         if ix.if_not_exists && self.d == Dialect::Postgres {
             s.push_str("IF NOT EXISTS ");
         }
-        s.push_str(&format!("{} ON {}", self.id(ix.name.as_deref().unwrap_or("")), self.id(table)));
+        s.push_str(&format!("{} ON {}", self.id(ix.name.as_deref().unwrap_or("")), self.tid(table)));
         match self.d {
             Dialect::Postgres => {
                 if let Some(t) = ix.index_type {
@@ -406,6 +413,6 @@ impl RD {
                 }),
             }
         }
-        format!("ALTER TABLE {} {}", self.id(table), acts.join(", "))
+        format!("ALTER TABLE {} {}", self.tid(table), acts.join(", "))
     }
 }
